@@ -44,4 +44,15 @@ PROPS = {
         "thorough": {"cases": 20000, "shards": 16, "shrinktime": "120s", "timeout_s": 3000},
         "assumptions": RUN_ASSUME + ["events after the run began shutting down are not judged"],
     },
+    "C07": {
+        "test": "TestC07", "binary": "plain", "level": "exploration",
+        "rule": "rapid-generated programs with faulting leaves (omitted optional referenced, list index out of range, stringToInt of non-numbers, "
+                "integer / and % by 0..2, arithmetic and functions on plugin integers, references into crashed.error / deploy_failed.error) and "
+                "misbehaving steps (crash, schema-violating output, undeclared output id, schema mismatch, write-refusing connection); each case runs "
+                "in a worker process; oracle = the worker neither dies nor reports a recovered panic and answers; a returned output must not be one "
+                "whose expression the reference evaluates to a fault. non-trivial = reference predicts >=1 fault or >=1 misbehaving step",
+        "quick": {"cases": 1200, "shards": 12, "shrinktime": "30s"},
+        "thorough": {"cases": 20000, "shards": 16, "shrinktime": "120s", "timeout_s": 3000},
+        "assumptions": RUN_ASSUME,
+    },
 }
